@@ -226,6 +226,7 @@ func (m *Memberlist) encryptionVersion() encryptionVersion {
 // streamListen is a long running goroutine that pulls incoming streams from the
 // transport and hands them off for processing.
 func (m *Memberlist) streamListen() {
+	defer m.vop("go", "streamListen")()
 	for {
 		select {
 		case conn := <-m.transport.StreamCh():
@@ -364,6 +365,7 @@ func (m *Memberlist) handleConn(conn net.Conn) {
 // packetListen is a long running goroutine that pulls packets out of the
 // transport and hands them off for processing.
 func (m *Memberlist) packetListen() {
+	defer m.vop("go", "packetListen")()
 	for {
 		select {
 		case packet := <-m.transport.PacketCh():
@@ -512,6 +514,7 @@ func (m *Memberlist) getNextMessage() (msgHandoff, bool) {
 // over the packet interface, but is decoupled from the listener to avoid
 // blocking the listener which may cause ping/ack messages to be delayed.
 func (m *Memberlist) packetHandler() {
+	defer m.vop("go", "packetHandler")()
 	for {
 		select {
 		case <-m.handoffCh:
